@@ -78,6 +78,7 @@ func hasCodes(s string) bool { return strings.ContainsAny(s, sevenCodes) }
 
 func init() {
 	props["C11"] = runC11
+	genOps["evsplit"] = "gen.Event.split" // the regenerated (*Event).split (its text splitter is the model's)
 	runners["splitmsg"] = func(c *Ctx, in map[string]string) {
 		text := in["text"]
 		var w int
@@ -120,8 +121,17 @@ func init() {
 			return strings.Join(l, ";")
 		}
 		out := safely(func() string { return show(girc.VerifEventSplit(e, ml)) })
-		if m := c.L.Call("evsplit", encTags(e.Tags), encSource(e.Source), hx(e.Command), hxList(e.Params), fmt.Sprint(ml), hxList(badURLs(e.Last()))); m != out {
+		// the URL oracle: for a CTCP event the splitter sees ctcp.Text, whose last word lacks the trailing delimiter
+		texts := []string{e.Last()}
+		if ct := girc.DecodeCTCP(e); ct != nil {
+			texts = append(texts, ct.Text)
+		}
+		sargs := []string{encTags(e.Tags), encSource(e.Source), hx(e.Command), hxList(e.Params), fmt.Sprint(ml), hxList(badURLs(texts...))}
+		if m := c.L.Call("evsplit", sargs...); m != out {
 			c.R.Mismatch("evsplit", hin, out, m)
+		}
+		if !strings.HasPrefix(out, "panic") {
+			c.genCheck("evsplit", hin, out, sargs...)
 		}
 		if strings.HasPrefix(out, "panic") {
 			c.R.Violation("evsplit.panic", hin, out, "", "Event.split panicked")
@@ -282,6 +292,18 @@ func runC11(c *Ctx) {
 		stepsToIn(in, steps)
 		c.run("session", in)
 		r.Count(fmt.Sprint(in), true, "session-limit-after-first-call")
+		r.Traces++
+	}
+	// bulk Join/List naming channels the client is ALREADY in (first, middle, last position): every channel asked for is sent
+	for _, pos := range []int{0, 1, 2} {
+		in := map[string]string{"nick": "me", "check": "c11"}
+		list := []string{"#x", "#y"}
+		list = append(list[:pos], append([]string{"#here"}, list[pos:]...)...)
+		steps := []string{"R:srv 001 me :Welcome", "R:me!u@h JOIN #here", "R:srv 353 me = #here :me @bob", "R:me!u@h JOIN #Also", "D",
+			"CJoin\x00" + strings.Join(list, "\x00"), "CList\x00" + strings.Join(list, "\x00"), "CJoin\x00#HERE", "CJoin\x00#also\x00#z\x00#also", "D"}
+		stepsToIn(in, steps)
+		c.run("session", in)
+		r.Count(fmt.Sprint(in), true, "session-join-already-joined")
 		r.Traces++
 	}
 	// one client, two servers: limits do not carry over
